@@ -2,6 +2,10 @@
 replacing `comms.time`, coroutine threads that run the REAL endpoint loops one iteration at a
 time, and shell objects (object.__new__) for Bridge and Executor.
 
+Data path: a pickled DatasetTransmitPayload handed to a PUSH socket by `ReliableSender.send` / `maybe_retry` is framed by the
+REAL `comms.send_data` (Syn + header + value), so that payload traffic - first copy, network duplicate, retransmission - reaches
+the receiving Listener in the three-frame shape inside ordinary histories.
+
 Nothing here touches /repo: module globals of cascade.executor.comms / bridge are replaced for
 the duration of a `installed()` block and restored afterwards.
 """
@@ -46,6 +50,20 @@ class FakePush:
         self.sim, self.addr = sim, addr
 
     def send_multipart(self, frames):
+        frames = tuple(frames)
+        if len(frames) == 2 and b"DatasetTransmitPayload" in bytes(frames[1]):
+            # the data channel: a DatasetTransmitPayload is not pickled into one frame, it travels as
+            # Syn + header + value — the REAL `comms.send_data` does the framing (it opens its own socket,
+            # i.e. another FakePush to the same address, and sends three frames)
+            try:
+                syn = pickle.loads(frames[0])
+                m = pickle.loads(frames[1])
+            except Exception:  # noqa: BLE001
+                syn = m = None
+            msg = self.sim.msg
+            if isinstance(syn, msg.Syn) and isinstance(m, msg.DatasetTransmitPayload):
+                self.sim.comms.send_data(self.addr, m, syn)
+                return
         self.sim.net.emit(self.addr, frames)
 
     def send(self, b):
